@@ -7,6 +7,7 @@ package main
 
 import (
 	"bytes"
+	"net/url"
 	"errors"
 	"fmt"
 	"io"
@@ -307,7 +308,29 @@ func c16HostileURL(e *c16Env, g c16DlGet, files []c16DlFile) (string, string) {
 	return prefix + name + suffix + query, shape
 }
 
-func c16DlExec(c c16DlCase) (o kit.Outcome) {
+// c16Names is the reference reading of a download url: (text of the file id, true) when the url's
+// path is the serve path followed by a file id and, optionally, a non-id character and more.
+func c16Names(target, serveURL string) (string, bool) {
+	u, err := url.ParseRequestURI(target)
+	if err != nil {
+		return "", false
+	}
+	p := u.EscapedPath()
+	dir, base := path.Split(path.Clean(p))
+	if dir != serveURL {
+		return "", false
+	}
+	n := 0
+	for n < len(base) && (base[n] == '-' || base[n] == '_' || (base[n] >= '0' && base[n] <= '9') || (base[n] >= 'a' && base[n] <= 'z') || (base[n] >= 'A' && base[n] <= 'Z')) {
+		n++
+	}
+	if n == 0 {
+		return "", false
+	}
+	return base[:n], true
+}
+
+func c16DlExec(c c16DlCase, tol func(*kit.Viol) bool) (o kit.Outcome) {
 	cls := map[string]bool{}
 	defer func() { o.Classes = c16SortedKeys(cls) }()
 	if len(c.Ups) == 0 {
@@ -488,14 +511,19 @@ func c16DlExec(c c16DlCase) (o kit.Outcome) {
 					return o
 				}
 				if rep.code < 400 {
-					rd.verdict <- errors.New("c16: aborted")
-					<-done
-					o.Viol = kit.V("download:unfinished-upload-served", "%s: while the upload was in flight (%d of %d bytes written, record status 'started') GET %s answered %d with %s",
+					v := kit.V("download:unfinished-upload-served", "%s: while the upload was in flight (%d of %d bytes written, record status 'started') GET %s answered %d with %s",
 						what, cut, len(data), f.url, rep.code, c16Short(rep.body))
-					return o
+					if !tol(v) {
+						rd.verdict <- errors.New("c16: aborted")
+						<-done
+						o.Viol = v
+						return o
+					}
+					cls["listed-finding:download:unfinished-upload-served"] = true
+				} else {
+					refused++
+					cls["in-flight:refused"] = true
 				}
-				refused++
-				cls["in-flight:refused"] = true
 				if mode == 2 {
 					rd.verdict <- nil
 				} else {
@@ -579,20 +607,46 @@ func c16DlExec(c c16DlCase) (o kit.Outcome) {
 		}
 		switch {
 		case rep.code == 200:
-			var hit *c16DlFile
+			// several uploads of one case may hold the same (very short) bytes: any of them may be the one named
+			var hit, sameBytes *c16DlFile
+			ct := rep.header.Get("Content-Type")
 			for k := range files {
 				if files[k].completed && bytes.Equal(files[k].data, rep.body) {
-					hit = &files[k]
+					sameBytes = &files[k]
+					if files[k].mime == ct {
+						hit = &files[k]
+					}
 				}
 			}
-			if hit == nil {
+			if sameBytes == nil {
 				o.Viol = kit.V("download:served-something-else", "%s: answered 200 with %s, which is not a completed upload", what, c16Short(rep.body))
 				return o
 			}
-			ct := rep.header.Get("Content-Type")
-			if ct != hit.mime {
-				o.Viol = kit.V("download:type-differs", "%s: served upload %s with Content-Type %q, recorded %q", what, hit.id, ct, hit.mime)
+			if hit == nil {
+				o.Viol = kit.V("download:type-differs", "%s: served upload %s with Content-Type %q, recorded %q", what, sameBytes.id, ct, sameBytes.mime)
 				return o
+			}
+			// Which upload does the url name? Reference: the path of the url (query aside), lexically
+			// cleaned, must be <serve path><id>[<non-id character>...]; anything else names nothing.
+			idText, named := c16Names(target, e.serveURL)
+			if i := strings.Index(target, "?"); i >= 0 && strings.Contains(target[i:], "/") {
+				// a '/' in the query: whether the query takes part in the resolution is not specified
+				cls["odd-url:slash-in-query(unspecified)"] = true
+			} else {
+				if !named {
+					o.Viol = kit.V("download:served-for-url-outside-serve-path", "%s: served upload %s although the url is not <%s><file id>...", what, hit.id, e.serveURL)
+					return o
+				}
+				ok := false
+				for k := range files {
+					if files[k].completed && bytes.Equal(files[k].data, rep.body) && files[k].mime == ct && types.ParseUid(idText) == files[k].id {
+						ok = true
+					}
+				}
+				if !ok {
+					o.Viol = kit.V("download:served-another-upload", "%s: the url names %q but upload %s was served", what, idText, hit.id)
+					return o
+				}
 			}
 			if c16Active(ct) && !strings.HasPrefix(strings.ToLower(rep.header.Get("Content-Disposition")), "attachment") {
 				o.Viol = kit.V("download:active-content-inline", "%s: served %q with Content-Disposition %q", what, ct, rep.header.Get("Content-Disposition"))
@@ -623,5 +677,9 @@ func c16DlExec(c c16DlCase) (o kit.Outcome) {
 }
 
 func TestC16Download(t *testing.T) {
-	kit.Check(t, "C16", "TestC16Download", c16DlGen, c16DlExec)
+	r := kit.Begin("C16", "TestC16Download")
+	defer r.Flush()
+	kit.CheckRun(t, r, c16DlGen, func(c c16DlCase) kit.Outcome {
+		return c16DlExec(c, func(v *kit.Viol) bool { return r.IsKnown(v.Sig) && r.Violation(v, c) })
+	})
 }
